@@ -203,6 +203,17 @@ void Groups::evalArguments( int argc, char* argv[]) noexcept( false)
          (ai->mElementType == detail::ArgListElement::Type::stringArg)
          ? findKeyOwner( ai->mArgString) : nullptr;
 
+      if ((ai->mElementType == detail::ArgListElement::Type::stringArg)
+          || (ai->mElementType == detail::ArgListElement::Type::singleCharArg))
+      {
+         // like in a single handler, an argument key ends the list of values
+         // of the previous argument, whichever handler that one belongs to
+         for (auto & stored_group : mArgGroups)
+         {
+            stored_group.mpArgHandler->endValueList();
+         } // end for
+      } // end if
+
       for (auto & stored_group : mArgGroups)
       {
          if ((key_owner != nullptr)
